@@ -1189,6 +1189,97 @@ func poolDocs() []string {
 	return out
 }
 
+// structuralDocs: one defect of each kind at EVERY member / element index of
+// objects and arrays with 1..4 entries (a check made only on the first iteration
+// of a loop, or only on the last, shows up at the other indices), bare and nested.
+func structuralDocs() []string {
+	badKeys := []string{"1", "-0", "1.5", "1e5", "true", "false", "null", "[]", "{}", "[1]", "{\"a\":1}", "a", "'a'", "\"a", ""}
+	vals := []string{"1", "\"v\"", "null", "[2]", "{\"z\":0}"}
+	var out []string
+	wrap := func(d string) {
+		out = append(out, d, "["+d+"]", "{\"o\":"+d+"}", "[0, "+d+" , 1]", " "+d+"\n")
+	}
+	for n := 1; n <= 4; n++ {
+		for bad := 0; bad < n; bad++ {
+			// object: member `bad` has a non-string name / no colon / no value / extra colon
+			for _, bk := range badKeys {
+				var ms []string
+				for i := 0; i < n; i++ {
+					k := fmt.Sprintf("\"k%d\"", i)
+					if i == bad {
+						k = bk
+					}
+					ms = append(ms, k+":"+vals[i%len(vals)])
+				}
+				wrap("{" + strings.Join(ms, ",") + "}")
+				wrap("{ " + strings.Join(ms, " , ") + " }")
+			}
+			for _, defect := range []string{"no-colon", "no-value", "double-colon", "comma-for-colon", "no-comma-after", "double-comma-after", "value-only"} {
+				var sb strings.Builder
+				sb.WriteString("{")
+				for i := 0; i < n; i++ {
+					k, v := fmt.Sprintf("\"k%d\"", i), vals[i%len(vals)]
+					m := k + ":" + v
+					sep := ","
+					if i == bad {
+						switch defect {
+						case "no-colon":
+							m = k + " " + v
+						case "no-value":
+							m = k + ":"
+						case "double-colon":
+							m = k + "::" + v
+						case "comma-for-colon":
+							m = k + "," + v
+						case "no-comma-after":
+							sep = " "
+						case "double-comma-after":
+							sep = ",,"
+						case "value-only":
+							m = v
+						}
+					}
+					sb.WriteString(m)
+					if i < n-1 || (i == bad && defect == "double-comma-after") {
+						sb.WriteString(sep)
+					}
+				}
+				sb.WriteString("}")
+				wrap(sb.String())
+			}
+			// array: element `bad` missing / followed by no or two commas / is a member
+			for _, defect := range []string{"missing", "no-comma-after", "double-comma-after", "member", "colon-after"} {
+				var sb strings.Builder
+				sb.WriteString("[")
+				for i := 0; i < n; i++ {
+					e, sep := vals[i%len(vals)], ","
+					if i == bad {
+						switch defect {
+						case "missing":
+							e = ""
+						case "no-comma-after":
+							sep = " "
+						case "double-comma-after":
+							sep = ",,"
+						case "member":
+							e = "\"k\":" + e
+						case "colon-after":
+							sep = ":"
+						}
+					}
+					sb.WriteString(e)
+					if i < n-1 || (i == bad && defect == "double-comma-after") {
+						sb.WriteString(sep)
+					}
+				}
+				sb.WriteString("]")
+				wrap(sb.String())
+			}
+		}
+	}
+	return out
+}
+
 func tokenise(toks []string) []string { return toks }
 
 func (g *dgen) corrupt(toks []string) (string, string) {
@@ -1377,6 +1468,11 @@ func main() {
 	for _, d := range poolDocs() {
 		hx.Emit(runDoc("pool", d))
 		classes["pool"]++
+		nd++
+	}
+	for _, d := range structuralDocs() {
+		hx.Emit(runDoc("structural", d))
+		classes["structural"]++
 		nd++
 	}
 	dg := &dgen{r: root.Split()}
